@@ -191,34 +191,7 @@ func runC13(c *Ctx) {
 	}
 
 	// ------------------------------------------------------------------ WriteControl
-	var wc []Variant
-	for _, server := range []int64{1, 0} {
-		for _, op := range []int64{8, 9, 10} {
-			dom := map[string]Dom{"messageType": {W: 4, Hi: -1}, "len(data)": {W: 7, Hi: 125}, "c.isServer": {W: 1, Hi: -1}}
-			v := Variant{Name: fmt.Sprintf("%s,opcode=%d", map[int64]string{1: "server", 0: "client"}[server], op), Dom: dom,
-				Bind: map[string]int64{"messageType": op, "c.isServer": server}, Nil: []string{"c.writeErr"}}
-			b0 := abs.Pack(abs.K(4, 8), abs.K(4, uint64(op)))
-			if server == 1 {
-				v.Spec = abs.Cat(b0, abs.Pack(abs.K(1, 0), abs.F("len(data)", 6, 0)), abs.BlobSpec("data", abs.LAtom("len(data)")))
-			} else {
-				v.Spec = abs.Cat(b0, abs.Pack(abs.K(1, 1), abs.F("len(data)", 6, 0)), abs.Pack(abs.X(32)), abs.BlobSpec("masked", abs.LAtom("len(data)")))
-			}
-			wc = append(wc, v)
-		}
-	}
-	l.encoder("websocket", "(*Conn).WriteControl", wc, func(r abs.Result) ([]abs.Seg, string) {
-		// only the paths that reach the transport are compared (timeouts and a latched write error return before it)
-		o := r.Path.Sink("c.conn")
-		if o == nil {
-			if len(r.Ret) == 1 {
-				if _, isNil := r.Ret[0].(*abs.NilV); isNil {
-					return nil, "WriteControl reports success without writing the frame"
-				}
-			}
-			return nil, "skip"
-		}
-		return o.Segs, ""
-	})
+	l.encoder("websocket", "(*Conn).WriteControl", wsWriteControlVariants(false), wsWriteControlOut)
 	// oversize / non-control types are refused before any write
 	if fn := P.Func("websocket", "(*Conn).WriteControl"); fn != nil {
 		for _, cs := range []struct {
@@ -248,6 +221,7 @@ func runC13(c *Ctx) {
 	checkWSSeq(c)
 	checkWSHandshake(c)
 	checkWSReadFrom(c)
+	checkWSUnmask(c)
 }
 
 // checkWSReadFrom: io.Reader may return n > 0 together with an error (io.EOF); the bytes read must be
@@ -313,6 +287,164 @@ func checkWSReadFrom(c *Ctx) {
 }
 
 // checkWSSeq: C13.seq.
+// wsWriteControlVariants: both roles x the three control opcodes with a symbolic payload length 0..125, plus the
+// boundary variants with exactly 125 bytes (the largest control payload RFC 6455 allows must be written, not refused).
+func wsWriteControlVariants(maxOnly bool) []Variant {
+	var wc []Variant
+	for _, server := range []int64{1, 0} {
+		for _, op := range []int64{8, 9, 10} {
+			for _, max := range []bool{false, true} {
+				if maxOnly && !max {
+					continue
+				}
+				dom := map[string]Dom{"messageType": {W: 4, Hi: -1}, "len(data)": {W: 7, Hi: 125}, "c.isServer": {W: 1, Hi: -1}}
+				v := Variant{Name: fmt.Sprintf("%s,opcode=%d", map[int64]string{1: "server", 0: "client"}[server], op), Dom: dom,
+					Bind: map[string]int64{"messageType": op, "c.isServer": server}, Nil: []string{"c.writeErr"}}
+				if max {
+					v.Name += ",len=125(max)"
+					v.Bind["len(data)"] = 125
+				}
+				b0 := abs.Pack(abs.K(4, 8), abs.K(4, uint64(op)))
+				if server == 1 {
+					v.Spec = abs.Cat(b0, abs.Pack(abs.K(1, 0), abs.F("len(data)", 6, 0)), abs.BlobSpec("data", abs.LAtom("len(data)")))
+				} else {
+					v.Spec = abs.Cat(b0, abs.Pack(abs.K(1, 1), abs.F("len(data)", 6, 0)), abs.Pack(abs.X(32)), abs.BlobSpec("masked", abs.LAtom("len(data)")))
+				}
+				wc = append(wc, v)
+			}
+		}
+	}
+	return wc
+}
+
+func wsWriteControlOut(r abs.Result) ([]abs.Seg, string) {
+	// only the paths that reach the transport are compared (timeouts and a latched write error return before it)
+	o := r.Path.Sink("c.conn")
+	if o == nil {
+		if len(r.Ret) == 1 {
+			if _, isNil := r.Ret[0].(*abs.NilV); isNil {
+				return nil, "WriteControl reports success without writing the frame"
+			}
+		}
+		return nil, "skip"
+	}
+	return o.Segs, ""
+}
+
+// checkWSUnmask (receiving side of "messages arrive intact"): the masking key of RFC 6455 5.3 applies from byte 0 of
+// every frame. So the running key position is reset exactly where a frame's key is installed, the payload reader
+// unmasks exactly the bytes it read with the running position and keeps the position the masking routine returns,
+// and control payloads are unmasked from position 0.
+func checkWSUnmask(c *Ctx) {
+	P, R := c.P, c.R
+	R.Require("C13.unmask", 3)
+	adv := P.Func("websocket", "(*Conn).advanceFrame")
+	rd := P.Func("websocket", "(*messageReader).Read")
+	mb := P.Func("websocket", "maskBytes")
+	if !R.Anchor(adv != nil && rd != nil && mb != nil, "C13.unmask", "websocket.advanceFrame/messageReader.Read/maskBytes") {
+		return
+	}
+	// (1) key installed <=> position reset, in the same frame-header region
+	var keyCopy, posReset ssa.Instruction
+	core.EachInstr(adv, func(in ssa.Instruction) {
+		switch x := in.(type) {
+		case *ssa.Call:
+			if b, ok := x.Call.Value.(*ssa.Builtin); ok && b.Name() == "copy" && strings.HasSuffix(core.Path(x.Call.Args[0]), "readMaskKey") {
+				keyCopy = in
+			}
+		case *ssa.Store:
+			if strings.HasSuffix(core.Path(x.Addr), "readMaskPos") {
+				if k, ok := core.ConstInt(x.Val); ok && k == 0 {
+					posReset = in
+				}
+			}
+		}
+	})
+	ok1 := keyCopy != nil && posReset != nil && (core.Precedes(posReset, keyCopy) || core.Precedes(keyCopy, posReset))
+	if ok1 {
+		// nothing delivers payload between the two: same guard set (the mask bit) - the later one is dominated by the
+		// earlier one's block and both are dominated by the same conditions
+		a, b := core.GuardAtoms(posReset.Block()), core.GuardAtoms(keyCopy.Block())
+		has := func(as []core.Atom, want core.Atom) bool {
+			for _, x := range as {
+				if x.String() == want.String() {
+					return true
+				}
+			}
+			return false
+		}
+		first := a
+		if core.Precedes(keyCopy, posReset) {
+			first = b
+		}
+		other := b
+		if core.Precedes(keyCopy, posReset) {
+			other = a
+		}
+		for _, x := range first {
+			if !has(other, x) {
+				ok1 = false
+			}
+		}
+	}
+	R.Check(ok1, "C13.unmask", "websocket|advanceFrame|key-position-reset-with-every-frame-key", P.Pos(adv.Pos()),
+		"the running mask position is reset to 0 where each frame's masking key is installed",
+		"the running mask position is not reset together with the installation of a frame's masking key: the key of a continuation frame is applied from a rotated position and every payload byte after the first frame whose length is not a multiple of 4 is corrupted", nil)
+	// (2) payload reader
+	ok2, ok3 := false, false
+	core.EachInstr(rd, func(in ssa.Instruction) {
+		call, ok := in.(*ssa.Call)
+		if !ok || call.Call.StaticCallee() != mb {
+			return
+		}
+		key, pos, buf := call.Call.Args[0], call.Call.Args[1], call.Call.Args[2]
+		if !strings.HasSuffix(core.Path(key), "readMaskKey") || !strings.HasSuffix(core.Path(pos), "readMaskPos") {
+			return
+		}
+		// the result goes back to the position
+		for _, r := range *call.Referrers() {
+			if st, isSt := r.(*ssa.Store); isSt && st.Val == ssa.Value(call) && strings.HasSuffix(core.Path(st.Addr), "readMaskPos") {
+				ok2 = true
+			}
+		}
+		// the buffer is b[:n] with n the count just read
+		if sl, isSl := buf.(*ssa.Slice); isSl && sl.Low == nil && sl.High != nil {
+			if ex, isEx := sl.High.(*ssa.Extract); isEx && ex.Index == 0 {
+				ok3 = true
+			}
+		}
+		// only the server unmasks
+		srv := false
+		for _, a := range core.GuardAtoms(call.Block()) {
+			if strings.HasSuffix(a.L, "isServer") {
+				srv = true
+			}
+		}
+		ok3 = ok3 && srv
+	})
+	R.Check(ok2 && ok3, "C13.unmask", "websocket|(*messageReader).Read|unmasks-what-it-read", P.Pos(rd.Pos()),
+		"the payload reader unmasks exactly the n bytes it read, from the running position, keeps the position returned, and only in the server role",
+		"the payload reader does not unmask exactly the bytes it read with the running key position (position not carried over, wrong window, or not tied to the server role)", nil)
+	// (3) control payloads from position 0 in the server role
+	ok4 := false
+	core.EachInstr(adv, func(in ssa.Instruction) {
+		call, ok := in.(*ssa.Call)
+		if !ok || call.Call.StaticCallee() != mb {
+			return
+		}
+		if k, isK := core.ConstInt(call.Call.Args[1]); isK && k == 0 && strings.HasSuffix(core.Path(call.Call.Args[0]), "readMaskKey") {
+			for _, a := range core.GuardAtoms(call.Block()) {
+				if strings.HasSuffix(a.L, "isServer") {
+					ok4 = true
+				}
+			}
+		}
+	})
+	R.Check(ok4, "C13.unmask", "websocket|advanceFrame|control-payload-unmasked-from-0", P.Pos(adv.Pos()),
+		"control frame payloads are unmasked with the frame's key from position 0 in the server role",
+		"control frame payloads are not unmasked with the frame's key from position 0", nil)
+}
+
 func checkWSSeq(c *Ctx) {
 	P, R := c.P, c.R
 	ffn := P.Func("websocket", "(*messageWriter).flushFrame")
